@@ -41,7 +41,7 @@ without it the statement is false: `varstack_index_counterexample`); (2) members
 false: `reset_restores_objstack_counterexample`). -/
 theorem reset_restores_partial (s : State) (hs : MidOk s) :
     ∀ m ∈ transientIds, run ensureReset s m = freshState m :=
-  fun m hm => reset_restores_of_checks (by decide) (by decide) s hs m hm
+  fun m hm => reset_restores_of_checks (by decide +kernel) (by decide +kernel) s hs m hm
 
 example : MidOk (fun k => if k = vsStack then .seq [4, 5, 6] else if k = vsIndex then .num 2 else .seq [9]) := by
   decide
@@ -51,13 +51,13 @@ example : MidOk (fun k => if k = vsStack then .seq [4, 5, 6] else if k = vsIndex
 constructed transformer.  *Partial* in the same two respects as `reset_restores_partial`. -/
 theorem start_state_independent_partial (s : State) (hs : MidOk s) :
     view (run setup (run ensureReset s)) = view (run setup freshState) :=
-  view_congr _ _ fun m hm => start_of_checks (by decide) (by decide) s hs m hm
+  view_congr _ _ fun m hm => start_of_checks (by decide +kernel) (by decide +kernel) s hs m hm
 
 /-- Set-up and reset never write a member that is sticky by contract (`m_params`, `m_functions`, owned
 stylesheets / sources, trace listeners), a configuration option or a constant. -/
 theorem sticky_untouched (s : State) :
     ∀ m ∈ keptIds, run (setup ++ ensureReset) s m = s m :=
-  fun m hm => kept_of_checks (by decide) s m hm
+  fun m hm => kept_of_checks (by decide +kernel) s m hm
 
 example : 3 ∈ keptIds ∧ memberNames.getD 3 "" = "T.m_params" := by decide
 
@@ -105,6 +105,31 @@ theorem varstack_reset_from_any_history (ops : List VOp) (w : VarStack)
 example : VarStack.runOps ⟨0, 0⟩ [.push, .push, .setIdx (some 1), .push, .pop, .setIdx none, .push] = some ⟨3, 3⟩ := by
   decide
 
+/-- **interpreter_abort_states_midok.** The interpreter's use of the variables stack is a properly nested
+block program (`Block`: every `startElement` push has its `endElement` pop, frames pop down to their marker,
+`pushCurrentStackFrameIndex` / `popCurrentStackFrameIndex` come in pairs and are given indices within the
+stack).  Wherever an exception leaves such a program — after *any prefix* of its stack operations — the stack
+satisfies `0 ≤ m_currentStackFrameIndex ≤ m_stack.size()`, i.e. every member state with that stack satisfies
+the hypothesis `MidOk` of `reset_restores_partial` / `history_independent_partial`.  (That the C++ Elem* classes
+produce only such programs is the part taken from the C01 walker model, not re-proved here.) -/
+theorem interpreter_abort_states_midok (b : Block) (pre post : List VOp)
+    (h : (b.ops ⟨0, 0⟩).1 = pre ++ post) (hw : b.WF ⟨0, 0⟩) :
+    ∃ w, VarStack.runOps ⟨0, 0⟩ pre = some w ∧ w.Inv ∧
+      ∀ mid : State, (mid vsStack).items.length = w.size → mid vsIndex = .num (w.idx : Int) → MidOk mid := by
+  obtain ⟨w, hr, hi⟩ := Block.abort_anywhere b pre post h hw
+  refine ⟨w, hr, hi, ?_⟩
+  intro mid h1 h2
+  unfold MidOk VarStack.Inv at *
+  rw [h2, h1]
+  simp only [Val.int]
+  omega
+
+example : (Block.frame (.seq .var (.withIdx (some 1) (.frame (.seq .var .var))))).WF ⟨0, 0⟩ ∧
+    ((Block.frame (.seq .var (.withIdx (some 1) (.frame (.seq .var .var))))).ops ⟨0, 0⟩).1 =
+      [.push, .push, .setIdx (some 1), .push, .push, .push, .pop, .pop, .pop, .setIdx (some 2), .pop, .pop] := by
+  refine ⟨?_, by decide⟩
+  simp [Block.WF, Block.ops, VarStack.step]
+
 /-- **history_independent_partial.** For every finite history of API operations on one transformer — compile,
 parse, set / clear parameters, install / uninstall functions, destroy, and transformations that stop in
 an arbitrary member state — every reply (in particular: everything a transformation starts from, the
@@ -117,7 +142,7 @@ observation, and the XSLT interpreter is not modelled -- that equal start states
 correspondence run (harness/c06_reuse.cpp) samples on the real library. -/
 theorem history_independent_partial (ops : List Op) (hops : ∀ op ∈ ops, op.MidOk) :
     (runOps Tx.init ops).2 = (Spec.init.runOps ops).2 :=
-  (runOps_sim (by decide) (by decide) (by decide) ops sim_init hops).2
+  (runOps_sim (by decide +kernel) (by decide +kernel) (by decide +kernel) ops sim_init hops).2
 
 example : ∀ op ∈ [Op.setParamExpr "p" "'x'", Op.compile 0 "s1" true, Op.parse 0 "d1" true,
     Op.transform 0 0 (fun k => if k = vsStack then .seq [1, 2, 3] else if k = vsIndex then .num 3 else .seq [8]),
@@ -127,15 +152,17 @@ example : ∀ op ∈ [Op.setParamExpr "p" "'x'", Op.compile 0 "s1" true, Op.pars
   rcases h with h | h | h | h | h <;> subst h <;> first | trivial | decide
 
 /-- **params_sticky.** A transformation (however it ends) leaves the parameter map, the installed
-functions and the owned handles exactly as they were; `clearStylesheetParams` empties the map. -/
+functions, the configuration options and the owned handles exactly as they were; `clearStylesheetParams` empties the map. -/
 theorem params_sticky (t : Tx) (sheet src : Nat) (ssrc dsrc : String) (mid : State) :
     (step t (.transform sheet src mid)).1.params = t.params ∧
     (step t (.transformSrc ssrc dsrc mid)).1.params = t.params ∧
     (step t (.transform sheet src mid)).1.funcs = t.funcs ∧
     (step t (.transform sheet src mid)).1.sheets = t.sheets ∧
     (step t (.transform sheet src mid)).1.sources = t.sources ∧
+    (step t (.transform sheet src mid)).1.config = t.config ∧
+    (step t (.transformSrc ssrc dsrc mid)).1.config = t.config ∧
     (step t .clearParams).1.params = [] := by
-  refine ⟨?_, rfl, ?_, ?_, ?_, rfl⟩ <;>
+  refine ⟨?_, rfl, ?_, ?_, ?_, ?_, rfl, rfl⟩ <;>
     (simp only [step]; cases t.sheets.lookup sheet <;> cases t.sources.lookup src <;> rfl)
 
 /-- **param_last_write_wins.** If setting a parameter one way dropped the value stored the other way
